@@ -32,7 +32,7 @@ def run(repo, rep, tier):
                    "D4 one evaluator block for L/B/R; wrappers pass own tables; tables never written; exact time arguments",
                    "D5 constant terms (A,0,0); R0[0] within the mean orbit"]
     rep.undecided = ["latitude and radius bounds", "monotone longitude / daily rate", "agreement with Kepler positions",
-                     "FK5 and aberration sizes", "floating-point rounding of the summation order (the identity is decided over the rationals)"]
+                     "floating-point rounding of the summation order (the identity is decided over the rationals)"]
     rep.assumptions = ["tables are read with ast.literal_eval from the current source"]
     rep.rule("R-TABLE-REL", "relation among literals, two-sided tolerance from the property (PROVED / REFUTED / INCONCLUSIVE)")
     n_rel = 0
@@ -93,6 +93,7 @@ def run(repo, rep, tier):
     rep.floor("table relations", n_rel, 30)
     evaluator_blocks(repo, rep)
     direct_summation(repo, rep)
+    corrections(repo, rep)
     wrappers = wrapper_audit(repo, rep)
     # the 17 wrappers only `return <evaluator>(...)` (R-ARGS), so they inherit the evaluators' verdict
     units.first_component_pos(repo, rep, [("Coordinates", "vsop_pos"), ("Coordinates", "geometric_vsop_pos"), ("Coordinates", "apparent_vsop_pos")])
@@ -213,6 +214,93 @@ def direct_summation(repo, rep):
                               "for a %s table with %d series the evaluator does not return the direct term-by-term sum "
                               "1e-8 * sum_i tau^i sum_k A cos(B + C tau) (a series or a power of tau is lost or altered)" % (tag, n), obligation=True)
     rep.floor("direct-summation identities decided", done, 3)
+
+
+def corrections(repo, rep):
+    """R-RECIPE: FK5 and aberration corrections equal the documented expressions (Meeus 32.3 and 25.10) for both values of
+    each flag; the apparent position always starts from the FK5-corrected geometric one (the flags are not cross-wired)."""
+    from fractions import Fraction as F_
+    from ..poly import Algebra
+    rep.rule("R-RECIPE", "correction terms extracted by partial evaluation for each flag value == the documented expressions")
+    E = ("epoch", T.sym("E"))
+    args = {"epoch": E, "vsop_l": T.sym("TL"), "vsop_b": T.sym("TB"), "vsop_r": T.sym("TR")}
+    alg = Algebra(atomize=True)
+
+    def inner(x):
+        while x[0] in ("angle",) or (x[0] == "call" and x[1] == "pos" and len(x) == 3):
+            x = x[1] if x[0] == "angle" else x[2]
+        return x
+
+    def same(a, b):
+        if a == b:
+            return True
+        try:
+            return alg.equal(a, b)
+        except Exception:
+            return False
+    # ---- geometric_vsop_pos
+    q = "geometric_vsop_pos"
+    site = "Coordinates." + q
+    fn = repo.func("Coordinates", q)
+    an = [a.arg for a in fn.args.args]
+    if len(an) != 5:
+        rep.inconcl("R-RECIPE", site, "signature changed")
+        return
+    V = T.call("Coordinates.vsop_pos", E, T.sym("TL"), T.sym("TB"), T.sym("TR"))
+    L, B, R = (("idx", V, T.num(i)) for i in range(3))
+    Tc = T.mul(T.num(F_(1, 36525)), T.add(T.sym("E"), T.num(-2451545)))
+    lam = T.add(L, T.neg(T.mul(Tc, T.add(T.num(F_("1.397")), T.mul(T.num(F_("0.00031")), Tc)))))
+    c, s_ = T.call("cos", T.call("rad", lam)), T.call("sin", T.call("rad", lam))
+    asec = T.num(F_(1, 3600))
+    dlon = T.mul(asec, T.add(T.num(F_("-0.09033")), T.mul(T.num(F_("0.03916")), T.add(c, s_), T.call("tan", T.call("rad", B)))))
+    dlat = T.mul(asec, T.num(F_("0.03916")), T.add(c, T.neg(s_)))
+    n = 0
+    for flag in (True, False):
+        t = ret_term(repo, "Coordinates", q, arg_terms=dict(zip(an, [E, T.sym("TL"), T.sym("TB"), T.sym("TR"), ("bool", flag)])))
+        if t[0] != "tuple" or len(t) != 4:
+            rep.violation("R-RECIPE", site, "shape", "does not return (lon, lat, r)")
+            continue
+        lo, la, r = inner(t[1]), inner(t[2]), t[3]
+        want = (T.add(L, dlon), T.add(B, dlat), R) if flag else (L, B, R)
+        ok = same(lo, want[0]) and same(la, want[1]) and r == want[2]
+        n += 1
+        if ok:
+            rep.ok("R-RECIPE", site + "[tofk5=%s]" % flag, ("dL = -0.09033'' + 0.03916''(cos l' + sin l') tan B, dB = 0.03916''(cos l' - sin l'), "
+                                                             "l' = L - 1.397 T - 0.00031 T^2") if flag else "series values returned unchanged", obligation=True)
+        else:
+            rep.violation("R-RECIPE", site, "fk5:%s" % flag, "with tofk5=%s the result is not %s" % (flag, "the FK5-corrected position (Meeus 32.3)" if flag else "the plain series position"), obligation=True)
+    # ---- apparent_vsop_pos
+    q = "apparent_vsop_pos"
+    site = "Coordinates." + q
+    fn = repo.func("Coordinates", q)
+    an = [a.arg for a in fn.args.args]
+    G = T.call("Coordinates.geometric_vsop_pos", E, T.sym("TL"), T.sym("TB"), T.sym("TR"))
+    G0, G1, G2 = (("idx", G, T.num(i)) for i in range(3))
+    ab = T.mul(T.num(F_("-20.4898")), asec, T.power(G2, T.num(-1)))
+    for flag in (True, False):
+        t = ret_term(repo, "Coordinates", q, arg_terms=dict(zip(an, [E, T.sym("TL"), T.sym("TB"), T.sym("TR"), ("bool", flag)])))
+        if t[0] != "tuple" or len(t) != 4:
+            rep.violation("R-RECIPE", site, "shape", "does not return (lon, lat, r)")
+            continue
+        gcalls = {x for x in T.walk(t) if x[0] == "call" and x[1] == "Coordinates.geometric_vsop_pos"}
+        n += 1
+        extra = [x for g in gcalls for x in g[6:]]
+        if gcalls != {G}:
+            bad = [x for x in extra if not (x == ("bool", True) or (x[0] == "kw" and x[2] == ("bool", True)))]
+            if bad or not gcalls:
+                rep.violation("R-RECIPE", site, "fk5-flag:%s" % flag,
+                              "with nutation=%s the geometric position is requested with tofk5 = %s: the apparent position must always start from the "
+                              "FK5-corrected one (the nutation flag is wired into the FK5 switch)" % (flag, T.show(bad[0])[:30] if bad else "?"), obligation=True)
+                continue
+            t = T.subst(t, {g: G for g in gcalls})
+        nut = T.call("degof", T.call("Coordinates.nutation_longitude", E))
+        want_lon = T.add(G0, ab, nut) if flag else T.add(G0, ab)
+        if same(inner(t[1]), want_lon) and inner(t[2]) == G1 and t[3] == G2:
+            rep.ok("R-RECIPE", site + "[nutation=%s]" % flag, "lon = FK5 lon %s- 20.4898''/R, lat and r unchanged" % ("+ dpsi " if flag else ""), obligation=True)
+        else:
+            rep.violation("R-RECIPE", site, "aberration:%s" % flag, "with nutation=%s the longitude is not FK5 longitude %s- 20.4898''/R" % (flag, "+ nutation " if flag else ""),
+                          obligation=True)
+    rep.floor("correction recipes decided (2 functions x 2 flag values)", n, 4)
 
 
 def depends_t(cos_call):
